@@ -17,7 +17,7 @@ import z3
 import pyglove as pg
 import importlib
 pg_functor = importlib.import_module('pyglove.core.symbolic.functor')
-from pyvc.contracts import Contract, register
+from pyvc.contracts import Contract, register, direct
 from pyvc.values import SBool, SInt, SObj, SAny, ExcVal
 from pyvc import interp as I
 
@@ -247,3 +247,319 @@ class SignatureGetValueSpec(Contract):
   def small_models(self):
     from pyvc.contracts import Model
     yield Model({}, {})
+
+
+# ---------------------------------------------------------------------------
+# Call-time binding: Functor._parse_call_time_overrides against Python's call
+# rule (language reference 6.3.4) extended by the two documented switches:
+#   override_args      a call-time value may replace a value bound earlier;
+#                      without it such a call is a TypeError
+#   ignore_extra_args  surplus positionals / unknown keywords are dropped;
+#                      without it they are a TypeError, as in Python
+# each taken from the call when given there, else from the construction.
+#
+# Spec `py_call` below computes, for a signature shape and a call shape, either
+# TypeError or which source (call-time positional i / call-time keyword k /
+# value bound earlier / declared default) feeds each parameter.  The real body
+# runs on concrete shapes with symbolic values and symbolic switches; the
+# obligation: it returns exactly those sources, or raises TypeError exactly
+# when the spec does.  Shape-bounded (stated below), values unbounded.
+
+CALL_NAMES = ('a0', 'a1')
+KWONLY = 'k0'
+UNKNOWN_KW = 'zz'
+VARARGS = 'varargs'
+
+
+def call_shapes():
+  """(n, defaults, has_varargs, kwonly, has_varkw)."""
+  out = []
+  for n, dflts in ((0, ()), (1, (False,)), (1, (True,)), (2, (False, False)), (2, (False, True)), (2, (True, True))):
+    for va in (False, True):
+      for kwonly in ((), ((KWONLY, False),), ((KWONLY, True),)):
+        for varkw in (False, True):
+          out.append((n, dflts, va, kwonly, varkw))
+  return out
+
+
+def py_call(shape, m, kws, specified, override, ignore):
+  n, dflts, va, kwonly, varkw = shape
+  pos = CALL_NAMES[:n]
+  kwonly_names = tuple(k for k, _ in kwonly)
+  if m > n and not va:
+    if not ignore:
+      return ('TypeError', 'too many positional arguments')
+    m = n
+  npos = min(m, n)
+  val = {nm: ('pre', nm) for nm in specified if nm != VARARGS}
+  for i in range(npos):
+    if pos[i] in specified and not override:
+      return ('TypeError', 'new value for a bound argument without override_args')
+    val[pos[i]] = ('call', i)
+  varargs = [('call', i) for i in range(n, m)] if va else None
+  for k in kws:
+    if k in pos[:npos]:
+      return ('TypeError', 'multiple values')
+    if k in specified and not override:
+      return ('TypeError', 'new value for a bound argument without override_args')
+    if k in pos or k in kwonly_names or varkw:
+      val[k] = ('kw', k)
+    elif not ignore:
+      return ('TypeError', 'unexpected keyword')
+  lst = []
+  for i, nm in enumerate(pos):
+    if nm in val:
+      lst.append(val.pop(nm))
+    elif dflts[i]:
+      lst.append(('default', nm))
+    else:
+      return ('TypeError', 'missing positional')
+  for nm, has_default in kwonly:
+    if nm not in val:
+      if not has_default:
+        return ('TypeError', 'missing keyword-only')
+      val[nm] = ('default', nm)
+  if va:
+    # *args given at the call win; else the ones bound earlier.  (A keyword that
+    # happens to be spelled like the *args parameter is an ordinary **kwargs entry.)
+    if varargs:
+      lst.extend(varargs)
+    elif VARARGS in specified:
+      lst.append(('pre-varargs',))
+  return ('ok', lst, val)
+
+
+def _call_variants():
+  out = []
+  for shape in call_shapes():
+    n, dflts, va, kwonly, varkw = shape
+    names = CALL_NAMES[:n] + tuple(k for k, _ in kwonly)
+    kw_cands = names + (UNKNOWN_KW,) + ((VARARGS,) if va else ())
+    bindable = names + ((VARARGS,) if va else ())
+    specs = [()] + [(x,) for x in bindable] + ([CALL_NAMES[:2]] if n == 2 else [])
+    for m in range(0, n + 2):
+      for r in range(0, 3):
+        for kws in itertools.combinations(kw_cands, r):
+          for sp in specs:
+            for ct in (0, 1):
+              out.append((shape, m, kws, tuple(sp), ct))
+  return tuple(out)
+
+
+CALL_VARIANTS = _call_variants()
+
+
+@register
+class FunctorCallBinding(Contract):
+  prop = 'C18'
+  target = f'{FN}:Functor._parse_call_time_overrides'
+  name = 'Functor._parse_call_time_overrides'
+  variants = CALL_VARIANTS
+  bounded = True
+  bound_note = ('signatures with <= 2 positional parameters (each with / without default), +- *args, '
+                '+- one keyword-only parameter (with / without default), +- **kwargs; calls with <= n+1 '
+                'positionals and <= 2 keywords (declared names and one undeclared name); <= 2 arguments bound '
+                'earlier (incl. *args); switches override_args / ignore_extra_args symbolic, given at '
+                'construction and optionally again at the call; type checking of values off. Quick tier: a '
+                'deterministic sample of 480 of the shapes (by VERIF_SEED); thorough tier: all of them')
+  raises = {TypeError: ('only_when_the_rule_refuses',)}
+  pure = ('pyglove.core.utils.formatting:auto_plural', 'pyglove.core.utils.formatting:comma_delimited_str')
+  inline = ('pyglove.core.typing.callable_signature:Signature.has_varargs',
+            'pyglove.core.typing.callable_signature:Signature.has_varkw',
+            'pyglove.core.typing.callable_signature:Signature.named_args',
+            'pyglove.core.typing.callable_signature:Signature.get_value_spec',
+            'pyglove.core.typing.callable_signature:Signature.id')
+  max_paths = 3000
+  assumptions = ['A-C18-TYPECHECK-OFF: flags.is_type_check_enabled() is False during the call (with type checking '
+                 'on each value additionally goes through its value spec\'s apply, C04)']
+
+  @classmethod
+  def variants_for(cls, tier, seed):
+    if tier != 'quick':
+      return cls.variants
+    import random
+    r = random.Random(f'c18-call/{seed}')
+    # always present: the shape of the listed known finding (a keyword spelled
+    # like the *args parameter, with **kwargs) so that it is reported on every run
+    core = [((0, (), True, (), True), 0, (VARARGS,), (), 0)]
+    return tuple(core + [v for v in r.sample(cls.variants, 480) if v not in core])
+
+  def label(self):
+    (n, dflts, va, kwonly, varkw), m, kws, sp, ct = self.variant
+    return (f'Functor.call[n={n},defaults={"".join("d" if d else "-" for d in dflts) or "-"},varargs={va},'
+            f'kwonly={"".join(k + ("=d" if d else "") for k, d in kwonly) or "-"},varkw={varkw},pos={m},'
+            f'kw={"+".join(kws) or "-"},bound={"+".join(sp) or "-"},flags-at-call={bool(ct)}]')
+
+  def inputs(self, b):
+    (n, dflts, va, kwonly, varkw), m, kws, sp, ct = self.variant
+
+    def argspec(name, has_default):
+      return SObj(_cs.Argument, {'name': name, 'value_spec': SObj(object, {
+          'default': f'default:{name}' if has_default else pg.MISSING_VALUE})})
+    varkw_spec = SObj(object, {'name': 'kwargs', 'value_spec': SObj(object, {'schema': SObj(object, {
+        'dynamic_field': SObj(object, {'value': SObj(object, {'default': pg.MISSING_VALUE})})})})})
+    sig = SObj(_cs.Signature, {
+        'args': [argspec(x, d) for x, d in zip(CALL_NAMES[:n], dflts)],
+        'kwonlyargs': [argspec(k, d) for k, d in kwonly],
+        'varargs': argspec(VARARGS, False) if va else None,
+        'varkw': varkw_spec if varkw else None,
+        'module_name': 'm', 'qualname': 'f', 'name': 'f'}, name='signature')
+    self._args = [b.any(f'p{i}') for i in range(m)]
+    self._kwargs = {k: b.any(f'k_{k}') for k in kws}
+    self._pre = {}
+    for nm in sp:
+      self._pre[nm] = [b.any('prebound_vararg0')] if nm == VARARGS else b.any(f'bound_{nm}')
+    attrs = dict(self._pre)
+    # attributes that are stored but were not specified by the user (defaults)
+    for nm, d in list(zip(CALL_NAMES[:n], dflts)) + list(kwonly):
+      if d and nm not in attrs:
+        attrs[nm] = f'default:{nm}'
+    self._override = b.bool('override_args')
+    self._ignore = b.bool('ignore_extra_args')
+    if ct:
+      self._ct_override, self._ct_ignore = b.bool('override_args_at_call'), b.bool('ignore_extra_args_at_call')
+      self._kwargs_call = dict(self._kwargs, override_args=self._ct_override, ignore_extra_args=self._ct_ignore)
+    else:
+      self._ct_override = self._ct_ignore = None
+      self._kwargs_call = dict(self._kwargs)
+    s = SObj(pg_functor.Functor, {'__signature__': sig, '_override_args': self._override,
+                                  '_ignore_extra_args': self._ignore, '_sym_attributes': attrs,
+                                  '_specified_args': set(sp)}, name='self')
+    self._self = s
+    return dict(self=s), {}
+
+  def setup_policy(self, policy):
+    from pyglove.core.symbolic import flags as _flags
+    policy.handlers[id(_flags.is_type_check_enabled)] = lambda interp, a, k, f: False
+
+  def drive(self, interp, pyf, args, env, check):
+    return interp.call_function(pyf, [self._self] + list(self._args), dict(self._kwargs_call))
+
+  # -- the rule, per combination of the effective switches ---------------------
+  def _effective(self, interp):
+    ov = self._ct_override if self._ct_override is not None else self._override
+    ig = self._ct_ignore if self._ct_ignore is not None else self._ignore
+    return interp.to_z3(ov), interp.to_z3(ig)
+
+  def _expected(self, o, i):
+    shape, m, kws, sp, ct = self.variant
+    return py_call(shape, m, kws, sp, o, i)
+
+  def _value_of(self, src):
+    if src[0] == 'call':
+      return self._args[src[1]]
+    if src[0] == 'kw':
+      return self._kwargs[src[1]]
+    if src[0] == 'pre':
+      return self._pre[src[1]]
+    if src[0] == 'default':
+      return f'default:{src[1]}'
+    raise KeyError(src)
+
+  def _matches(self, interp, result, exp):
+    if exp[0] != 'ok':
+      return False
+    res = interp.resolve(result)
+    if not isinstance(res, tuple) or len(res) != 2:
+      return False
+    got_list = [interp.resolve(x) for x in interp.iterate(res[0], None)]
+    got_kw = interp.resolve(res[1])
+    if not isinstance(got_kw, dict):
+      return False
+    want_list = []
+    for src in exp[1]:
+      if src == ('pre-varargs',):
+        want_list.extend(self._pre[VARARGS])
+      else:
+        want_list.append(self._value_of(src))
+    if len(got_list) != len(want_list):
+      return False
+    for g, w in zip(got_list, want_list):
+      if not (g is w or (isinstance(w, str) and g == w)):
+        return False
+    if set(got_kw) != set(exp[2]):
+      return False
+    for k, src in exp[2].items():
+      w = self._value_of(src)
+      g = interp.resolve(got_kw[k])
+      if not (g is w or (isinstance(w, str) and g == w)):
+        return False
+    return True
+
+  @direct
+  def ensures_arguments_as_pythons_rule_binds_them(self, interp, env):
+    zo, zi = self._effective(interp)
+    zs = []
+    for o in (False, True):
+      for i in (False, True):
+        ok = self._matches(interp, env['result'], self._expected(o, i))
+        zs.append(z3.Implies(z3.And(zo == o, zi == i), z3.BoolVal(ok)))
+    return z3.And(*zs)
+
+  @direct
+  def raises_only_when_the_rule_refuses(self, interp, env):
+    zo, zi = self._effective(interp)
+    zs = []
+    for o in (False, True):
+      for i in (False, True):
+        zs.append(z3.Implies(z3.And(zo == o, zi == i), z3.BoolVal(self._expected(o, i)[0] == 'TypeError')))
+    return z3.And(*zs)
+
+  # -- native replay: build the real functor of that shape and call it ---------
+  def replay(self, obligation, m):
+    (n, dflts, va, kwonly, varkw), npos, kws, sp, ct = self.variant
+    params = []
+    for nm, d in zip(CALL_NAMES[:n], dflts):
+      params.append(f"{nm}='default:{nm}'" if d else nm)
+    if va:
+      params.append('*varargs')
+    elif kwonly:
+      params.append('*')
+    for nm, d in kwonly:
+      params.append(f"{nm}='default:{nm}'" if d else nm)
+    if varkw:
+      params.append('**kwargs')
+    body = 'return (' + ', '.join([*CALL_NAMES[:n]] + (['varargs'] if va else []) + [k for k, _ in kwonly]
+                                  + (['tuple(sorted(kwargs.items()))'] if varkw else [])) + ',)'
+    ns = {}
+    exec(f"def f({', '.join(params)}):\n  {body}\n", ns)   # pylint: disable=exec-used
+    f = ns['f']
+    bad = []
+    for o in (False, True):
+      for i in (False, True):
+        pre = {nm: (['pv0'] if nm == VARARGS else f'bound:{nm}') for nm in sp}
+        call_args = [f'pos:{j}' for j in range(npos)]
+        call_kw = {k: f'kw:{k}' for k in kws}
+        try:
+          if ct:
+            fn = pg.symbolic.functor()(f)(**pre, override_args=not o, ignore_extra_args=not i)
+            got = ('ok', fn(*call_args, **call_kw, override_args=o, ignore_extra_args=i))
+          else:
+            fn = pg.symbolic.functor()(f)(**pre, override_args=o, ignore_extra_args=i)
+            got = ('ok', fn(*call_args, **call_kw))
+        except TypeError as e:
+          got = ('TypeError', str(e)[:80])
+        except Exception as e:  # pylint: disable=broad-except
+          got = (type(e).__name__, str(e)[:80])
+        exp = self._expected(o, i)
+        if exp[0] == 'TypeError':
+          want = ('TypeError',)
+        else:
+          def v(src):
+            return {'call': lambda: f'pos:{src[1]}', 'kw': lambda: f'kw:{src[1]}',
+                    'pre': lambda: f'bound:{src[1]}', 'default': lambda: f'default:{src[1]}'}[src[0]]()
+          lst = []
+          for src in exp[1]:
+            lst.extend(['pv0'] if src == ('pre-varargs',) else [v(src)])
+          kwv = {k: v(src) for k, src in exp[2].items()}
+          try:
+            want = ('ok', f(*lst, **kwv))
+          except TypeError as e:
+            want = ('TypeError', str(e)[:80])
+        if got[0] != want[0] or (got[0] == 'ok' and got[1] != want[1]):
+          bad.append(f'override_args={o}, ignore_extra_args={i}: functor -> {got}, rule -> {want}')
+    sig_txt = f"def f({', '.join(params)})"
+    return dict(outcome='reproduced' if bad else 'not-reproduced',
+                detail=f'{sig_txt}; bound earlier {list(sp)}; call with {npos} positionals, keywords {list(kws)}, '
+                       f'switches given {"at construction and (opposite at construction) at the call" if ct else "at construction"}: '
+                       + ('; '.join(bad) or 'as the rule says'))
